@@ -162,11 +162,14 @@ def run(model, tier="quick"):
 
 
 MANIFEST = {
-    "technique": "guarded-decrement analysis over canonical effect paths (every holding decrement bounded by the holding on every path), ledger identity of the wallet primitives, rollback-exactness of compensation handlers",
+    "technique": "guarded-decrement analysis over canonical effect paths (every holding decrement bounded by the holding on every path), sign-of-argument analysis on the same paths (R-POS: an amount parameter reaching a wallet primitive or a holding must be bounded below on that path), ledger identity of the wallet primitives, rollback-exactness of compensation handlers",
     "claim": "Every store that reduces a holding in the markets, the broker or an asset is, on every path, bounded by that "
              "holding (guard on the surviving arm, clamp, or clamp-to-zero helper), so no holding can become negative and no "
              "more than what is held can be taken; the wallet primitives and broker swaps equal their reference ledgers. "
-             "Enumerated from the source, so a new unguarded decrement is reported.",
+             "Enumerated from the source, so a new unguarded decrement is reported. A scalar parameter of a user operation "
+             "that reaches a wallet primitive or a holding update is rejected when negative before anything moves (15 operations "
+             "are not: listed known findings, reproduced against the real code).",
     "note": "Trusted: positivity of indices/prices; the opt-in negative-balance configuration is an explicit exception. Not "
-            "decided: value conservation across operation sequences.",
+            "decided: value conservation across operation sequences; negative amounts that reach the holdings only through "
+            "opaque liquidity / pool math (UniLpMarket.add_liquidity*, GmxV2Market.deposit: reproduced, not decided by R-POS).",
 }
